@@ -107,7 +107,7 @@ pub fn check_c02(tier: Tier, seed: u64) -> PropReport {
     );
     rep.assumptions = WORLD_ASSUMPTIONS.iter().map(|s| s.to_string()).collect();
     let e = c02_hist();
-    let n = hist_cases(tier, 1500, 30_000);
+    let n = hist_cases(tier, 5000, 30_000);
     let o = drive(&e, "C02", tier, n, seed);
     rep.push(e.name, o);
     let e2 = SsMint;
@@ -134,7 +134,7 @@ pub fn check_c03(tier: Tier, seed: u64) -> PropReport {
     );
     rep.assumptions = WORLD_ASSUMPTIONS.iter().map(|s| s.to_string()).collect();
     let e = c03_hist();
-    let n = hist_cases(tier, 1500, 30_000);
+    let n = hist_cases(tier, 5000, 30_000);
     let o = drive(&e, "C03", tier, n, seed);
     rep.push(e.name, o);
     let n2 = hist_cases(tier, 200_000, 5_000_000);
@@ -162,7 +162,7 @@ pub fn check_c04(tier: Tier, seed: u64) -> PropReport {
     );
     rep.assumptions = WORLD_ASSUMPTIONS.iter().map(|s| s.to_string()).collect();
     let e = c04_hist();
-    let n = hist_cases(tier, 1500, 30_000);
+    let n = hist_cases(tier, 5000, 30_000);
     let o = drive(&e, "C04", tier, n, seed);
     rep.push(e.name, o);
     let n2 = hist_cases(tier, 100_000, 3_000_000);
@@ -184,7 +184,7 @@ pub fn check_c12(tier: Tier, seed: u64) -> PropReport {
     );
     rep.assumptions = WORLD_ASSUMPTIONS.iter().map(|s| s.to_string()).collect();
     let e = c12_hist();
-    let n = hist_cases(tier, 1500, 30_000);
+    let n = hist_cases(tier, 5000, 30_000);
     let o = drive(&e, "C12", tier, n, seed);
     rep.push(e.name, o);
     let n2 = hist_cases(tier, 200_000, 10_000_000);
